@@ -13,7 +13,7 @@ A getter in the trait that the generator cannot classify is reported (inconclusi
 import re, os
 
 HDR = r'''//! generated from `pub trait Buf` of src/buf/buf_impl.rs - do not edit
-use crate::symbuf::{CutBuf, StepBuf, SymBuf};
+use crate::symbuf::{FragBuf, StepBuf, SymBuf};
 use crate::util::*;
 use alloc::boxed::Box;
 use bytes::{Buf, BufMut, Bytes, BytesMut, TryGetError};
@@ -90,7 +90,8 @@ IMPLS = {
     let mut b2 = b;
     let start = 0usize;""",
     # one chunk boundary at a symbolic position (inside, before, behind or at either end of the value)
-    "cut": """let mut b = CutBuf::<N> { data, len, pos: 0, cut: kani::any() };
+    # (physically fragmented: each chunk ends where its array ends, so a read past a chunk leaves the object)
+    "cut": """let mut b = FragBuf::<N>::new(&data, len, kani::any());
     let mut b2 = b;
     let start = 0usize;""",
     # every byte its own chunk / chunks of three bytes
@@ -130,10 +131,13 @@ IMPLS = {
     b.set_position(pre as u64);
     let mut b2 = b.clone();
     let start = pre;""",
+    # the two halves are separate objects, the first flush with the end of its array
     "chain": """let cut = any_len(N);
     kani::assume(cut <= len);
-    let mut b = (&data[..cut]).chain(&data[cut..len]);
-    let mut b2 = (&data[..cut]).chain(&data[cut..len]);
+    let fr = FragBuf::<N>::new(&data, len, cut);
+    let (pa, pb) = fr.parts();
+    let mut b = pa.chain(pb);
+    let mut b2 = pa.chain(pb);
     let start = 0usize;""",
     "take": """let mut b = (&data[..]).take(len);
     let mut b2 = (&data[..]).take(len);
